@@ -58,6 +58,7 @@ RETURNS = (
     {"typ": "int", "doc": "the result"},
     {"typ": "Tuple[int, str]", "doc": "the pair.", "default": "```(alpha, 'x')```"},
     {"typ": "int", "doc": "the result", "default": "```alpha```"},
+    {"typ": "int", "doc": "the count", "default": 0},
 )
 SUMMARIES = ("Summary of f.", "Summary of f\nover two lines.")
 
@@ -94,7 +95,7 @@ EDGE_ATOMS = (
     ("str", "the {n}", "hello world and quite a few more words so that a wrapped line breaks inside the default text somewhere"),
     ("float", "the {n}", ABSENT), ("Optional[float]", "the {n}", ABSENT), ("str", "the {n}", "it's"), ("Optional[List[str]]", "the {n}", None),
     ("Union[int, float]", "the {n}", 2.5), ("Tuple[int, int]", "the {n}", "```(1, 2)```"), ("List[int]", "the {n}", "```[16, 32]```"),
-    ("List[int]", "the {n}", "```n```"),
+    ("List[int]", "the {n}", "```n```"), ("int", "Optional {n} of the run", 3),
 )
 
 
@@ -118,7 +119,7 @@ def domain(tier="quick", seed=0):
     # covering triples + kwargs rows
     rc = _reduced_atoms("gamma")
     for i in range(len(ra)):
-        out.append(("t%d" % i, make_ir([("alpha", ra[i]), ("beta", rb[(i + 3) % len(rb)]), ("gamma", rc[(i + 7) % len(rc)])], RETURNS[i % 4])))
+        out.append(("t%d" % i, make_ir([("alpha", ra[i]), ("beta", rb[(i + 3) % len(rb)]), ("gamma", rc[(i + 7) % len(rc)])], RETURNS[i % 5])))
         out.append(("k%d" % i, make_ir([("alpha", ra[i])], RETURNS[i % 2], kwargs=True)))
     if tier == "thorough":
         rnd = random.Random(seed)
